@@ -2097,12 +2097,13 @@ func (tb *Table) filterByDelTsidAndGenNewPart(pw *partWrapper, delTsids *uint64s
 	tmpPartPath := filepath.Join(tb.path, "tmp", partDirName)
 	lock := fileops.FileLockOption(tmpPartPath)
 
-	ps, ph, err := tb.genTempPart(pw, delTsids, tmpPartPath)
+	_, ph, changed, err := tb.genTempPart(pw, delTsids, tmpPartPath)
 	if err != nil {
 		return err
 	}
 
-	if ph.itemsCount == ps.p.ph.itemsCount {
+	// a tag->tsids row may lose some of its tsids and stay: the item count alone does not tell whether anything was removed
+	if !changed {
 		tb.partsLock.Lock()
 		pw.isDeleteTsids = false
 		tb.partsLock.Unlock()
@@ -2173,7 +2174,7 @@ func (tb *Table) filterByDelTsidAndGenNewPart(pw *partWrapper, delTsids *uint64s
 
 }
 
-func (tb *Table) genTempPart(pw *partWrapper, delTsids *uint64set.Set, tmpPartPath string) (partSearch, partHeader, error) {
+func (tb *Table) genTempPart(pw *partWrapper, delTsids *uint64set.Set, tmpPartPath string) (partSearch, partHeader, bool, error) {
 	var ps partSearch
 	ps.Init(pw.p)
 	key := ps.p.ph.firstItem
@@ -2184,7 +2185,7 @@ func (tb *Table) genTempPart(pw *partWrapper, delTsids *uint64set.Set, tmpPartPa
 	compressLevel := getCompressLevelForPartItems(ps.p.ph.itemsCount, ps.p.ph.blocksCount)
 	if err := bsw.InitFromFilePart(tmpPartPath, true, compressLevel, tb.lock); err != nil {
 		bsw.MustClose()
-		return ps, partHeader{}, err
+		return ps, partHeader{}, false, err
 	}
 	bsm := bsmPool.Get().(*blockStreamMerger)
 	defer bsmPool.Put(bsm)
@@ -2192,32 +2193,46 @@ func (tb *Table) genTempPart(pw *partWrapper, delTsids *uint64set.Set, tmpPartPa
 	bsr := getBlockStreamReader()
 	defer putBlockStreamReader(bsr)
 	if err := bsr.InitFromFilePart(pw.p.path); err != nil {
-		return ps, partHeader{}, err
+		return ps, partHeader{}, false, err
 	}
 	bsrs := make([]*blockStreamReader, 0, 1)
 	bsrs = append(bsrs, bsr)
 
 	err := bsm.Init(bsrs, tb.prepareBlock)
 	if err != nil {
-		return partSearch{}, partHeader{}, err
+		return partSearch{}, partHeader{}, false, err
 	}
 
 	var ph partHeader
 	var itemsMerged uint64
 
+	changed := false
+	var rowBuf []byte
 	for {
 		if !ps.NextItem() {
 			break
 		}
 
-		if isDeleted(delTsids, ps.Item) {
+		item := ps.Item
+		if len(item) > 0 && item[0] == nsPrefixTagToTSIDs {
+			// a flushed tag->tsids row holds up to 64 tsids: keep the ones that are not deleted
+			var removed bool
+			item, rowBuf, removed = filterTagToTSIDsRow(delTsids, item, rowBuf)
+			changed = changed || removed
+			if len(item) == 0 {
+				continue
+			}
+		} else if isDeleted(delTsids, item) {
+			changed = true
 			continue
 		}
 
-		if !bsm.ib.Add(ps.Item) {
-			// The bsm.ib is full. Flush it to bsw and continue.
+		if !bsm.ib.Add(item) {
+			// The bsm.ib is full. Flush it to bsw and add the item to the emptied block.
 			bsm.flushIB(bsw, &ph, &itemsMerged)
-			continue
+			if !bsm.ib.Add(item) {
+				logger.Panicf("BUG: cannot add an item of %d bytes to an empty block", len(item))
+			}
 		}
 	}
 
@@ -2226,9 +2241,45 @@ func (tb *Table) genTempPart(pw *partWrapper, delTsids *uint64set.Set, tmpPartPa
 
 	if err = ph.WriteMetadata(tmpPartPath, tb.lock); err != nil {
 		fs.MustRemoveAll(tmpPartPath, tb.lock)
-		return partSearch{}, partHeader{}, err
+		return partSearch{}, partHeader{}, false, err
 	}
-	return ps, ph, nil
+	return ps, ph, changed, nil
+}
+
+// filterTagToTSIDsRow removes the deleted tsids from a tag->tsids row
+// (nsPrefixTagToTSIDs, marshaled composite tag key, marshaled tag value, 8 bytes per tsid).
+// It returns the row to keep (the original item when nothing was removed, nil when no tsid is left), the scratch buffer
+// and whether anything was removed. The marshaled key and value never contain the separator byte unescaped, so the
+// tsids start after the second separator.
+func filterTagToTSIDsRow(delTsids *uint64set.Set, item, buf []byte) ([]byte, []byte, bool) {
+	const tagSeparatorChar = 1
+	n := bytes.IndexByte(item[1:], tagSeparatorChar)
+	if n < 0 {
+		return item, buf, false
+	}
+	m := bytes.IndexByte(item[1+n+1:], tagSeparatorChar)
+	if m < 0 {
+		return item, buf, false
+	}
+	head := 1 + n + 1 + m + 1
+	tail := item[head:]
+	if len(tail) == 0 || len(tail)%MarshaledUint64Len != 0 {
+		return item, buf, false
+	}
+	buf = append(buf[:0], item[:head]...)
+	for len(tail) > 0 {
+		if !delTsids.Has(encoding.UnmarshalUint64(tail[:MarshaledUint64Len])) {
+			buf = append(buf, tail[:MarshaledUint64Len]...)
+		}
+		tail = tail[MarshaledUint64Len:]
+	}
+	if len(buf) == len(item) {
+		return item, buf, false
+	}
+	if len(buf) == head {
+		return nil, buf, true
+	}
+	return buf, buf, true
 }
 
 func isDeleted(delTsids *uint64set.Set, item []byte) bool {
